@@ -30,6 +30,7 @@ type cfg struct {
 	trans    string // tcp | unix | udp
 	bursts   []int
 	fin      bool
+	fclose   bool // the peer closes its socket (instead of shutting down its write side)
 	conns    int
 	p, d     int
 }
@@ -39,7 +40,11 @@ func (c cfg) name() string {
 	if c.async {
 		a = "async/" + c.exec
 	}
-	return fmt.Sprintf("%s %s %s np=%d b=%d max=%d bursts=%v fin=%v conns=%d", c.trans, c.mode, a, c.npoller, c.b, c.maxReads, c.bursts, c.fin, c.conns)
+	f := fmt.Sprint(c.fin)
+	if c.fclose {
+		f = "close"
+	}
+	return fmt.Sprintf("%s %s %s np=%d b=%d max=%d bursts=%v fin=%s conns=%d", c.trans, c.mode, a, c.npoller, c.b, c.maxReads, c.bursts, f, c.conns)
 }
 
 var lastCounters map[string]int
@@ -124,7 +129,9 @@ func streamBody(c cfg) func() {
 					x.sent = append(x.sent, data...)
 					x.peer.WriteAll(data)
 				}
-				if c.fin {
+				if c.fclose {
+					x.peer.Close()
+				} else if c.fin {
 					x.peer.CloseWrite()
 				}
 			})
@@ -157,8 +164,12 @@ func streamBody(c cfg) func() {
 				if s.closes > 0 {
 					closedNote = fmt.Sprintf(" (connection closed with %v)", s.closeErr)
 				}
-				fails = append(fails, fmt.Sprintf("inbound-%s %s %s fin=%v|conn %d: peer sent %d bytes, the data callback received %d%s; b=%d max=%d; pending in socket=%d",
-					kind, c.mode, a, c.fin, i, len(x.sent), len(s.got), closedNote, c.b, c.maxReads, 0))
+				finS := fmt.Sprint(c.fin)
+				if c.fclose {
+					finS = "close/" + c.trans
+				}
+				fails = append(fails, fmt.Sprintf("inbound-%s %s %s fin=%s|conn %d: peer sent %d bytes, the data callback received %d%s; b=%d max=%d; pending in socket=%d",
+					kind, c.mode, a, finS, i, len(x.sent), len(s.got), closedNote, c.b, c.maxReads, 0))
 			}
 			if c.fin && s.closes == 0 {
 				lastCounters["fin_without_close_not_judged_here"]++
@@ -320,9 +331,11 @@ func build(tier string) []*vkit.Scenario {
 				patterns := []struct {
 					bursts []int
 					fin    bool
+					fclose bool
 				}{
-					{[]int{1}, false}, {[]int{b + 1}, false}, {[]int{2*b + 1, 1}, false}, {[]int{b, b}, false},
-					{[]int{b}, true}, {[]int{2*b + 1}, true}, {[]int{mr*b + 1}, true}, {[]int{1, mr*b + b}, true},
+					{[]int{1}, false, false}, {[]int{b + 1}, false, false}, {[]int{2*b + 1, 1}, false, false}, {[]int{b, b}, false, false},
+					{[]int{b}, true, false}, {[]int{2*b + 1}, true, false}, {[]int{mr*b + 1}, true, false}, {[]int{1, mr*b + b}, true, false},
+					{[]int{2*b + 1}, true, true}, {[]int{mr*b + 1}, true, true},
 				}
 				for _, tr := range []string{"tcp", "unix"} {
 					if tr == "unix" && !thorough && (b == 4 || mr == 3) {
@@ -336,7 +349,7 @@ func build(tier string) []*vkit.Scenario {
 						if thorough {
 							p, d = p+1, 2
 						}
-						c := cfg{mode: e.mode, async: e.async, exec: e.exec, npoller: 1, b: b, maxReads: mr, trans: tr, bursts: pt.bursts, fin: pt.fin, conns: 1, p: p, d: d}
+						c := cfg{mode: e.mode, async: e.async, exec: e.exec, npoller: 1, b: b, maxReads: mr, trans: tr, bursts: pt.bursts, fin: pt.fin, fclose: pt.fclose, conns: 1, p: p, d: d}
 						add(c, streamBody(c))
 					}
 				}
